@@ -86,6 +86,10 @@ func Catalog() []VarSpec {
 	c = append(c, vs("F.Arr[0]", TInt, reflect.Int64, "slice-const", true, func() *Path { return P("F.Arr", 0) }))
 	c = append(c, vs("F.Arr[1]", TInt, reflect.Int64, "slice-const", true, func() *Path { return P("F.Arr", 1) }))
 	c = append(c, vs("F.Arr[F.Idx]", TInt, reflect.Int64, "slice-var", true, func() *Path { return P("F.Arr", idxVar("F")) }))
+	c = append(c, vs("F.Arr[F.Idx + 1]", TInt, reflect.Int64, "slice-expr", true, func() *Path { return P("F.Arr", Bin("+", TInt, idxVar("F"), LitI(1))) }))
+	c = append(c, vs(`F.M["k" + (F.Idx + 1)]`, TInt, reflect.Int64, "map-expr", true, func() *Path {
+		return P("F.M", Bin("+", TStr, LitS("k"), Bin("+", TInt, idxVar("F"), LitI(1))))
+	}))
 	c = append(c, vs("F.FArr[0]", TFloat, reflect.Float64, "slice-const", true, func() *Path { return P("F.FArr", 0) }))
 	c = append(c, vs("F.SArr[1]", TStr, reflect.String, "slice-const", true, func() *Path { return P("F.SArr", 1) }))
 	c = append(c, vs("F.I8Arr[0]", TInt, reflect.Int8, "slice-const", true, func() *Path { return P("F.I8Arr", 0) }))
@@ -526,6 +530,18 @@ func (g *Gen) AssignTo(v VarSpec, d int) *Stmt {
 	r := g.R
 	aop := "="
 	var rhs *Expr
+	if g.Faulty && (v.JSON || v.Class == "top") && r.Intn(5) == 0 {
+		// a JSON member or a top-level variable may change its kind at run time; conditions that
+		// read it as a number then fail to evaluate (C14)
+		switch v.Ty {
+		case TStr:
+			return Assign(v.Mk(), "=", g.intLit())
+		case TBool:
+			return Assign(v.Mk(), "=", g.strLit())
+		default:
+			return Assign(v.Mk(), "=", LitS([]string{"high", "n/a", ""}[r.Intn(3)]))
+		}
+	}
 	switch v.Ty {
 	case TInt:
 		if r.Intn(3) == 0 && v.GK == reflect.Int64 && !v.JSON {
